@@ -139,6 +139,9 @@ def run(rep):
             collisions(rep, ogp, out, where, a_text, a_model)
     reference_closure(rep, ogp, where)
     derive_limits(rep, ogp, sch, where)
+    # the section reaches the assembled output unconditionally (shared rule, lib/sections.py)
+    from sections import check_wiring
+    check_wiring(rep, 'C01.section-wiring', [''], 'all-sections')
 
 
 def conversion_chain(term):
